@@ -1,6 +1,6 @@
 ----------------------------- MODULE MC_Lifetimes -----------------------------
 EXTENDS Lifetimes, Json
-AllParamKinds == {"opq", "optopq", "slice", "opqlt", "st1", "st2", "st2b"}
+AllParamKinds == {"opq", "optopq", "slice", "opqlt", "st1", "st2", "st2b", "nst2"}
 AllRetKinds == {"ropq", "roptopq", "rslice", "rbox", "rst1", "rst2", "ropqlt"}
 SmallParamKinds == {"opq", "slice", "opqlt", "st2b"}
 SmallRetKinds == {"ropq", "rbox", "rst2"}
